@@ -39,6 +39,7 @@ int verif_nondeterministic = 1;		/* two processes and wall-clock bounds: the dri
 size_t verif_max_size = 120;
 size_t verif_min_size = 10;
 
+#define SLACK_MS 3000	/* allowance for scheduling noise on a loaded machine */
 static struct verif_report *R;
 static struct vr V;
 static uint8_t *sbuf, *rbuf;
@@ -352,14 +353,14 @@ static void part_b(struct verif_report *r, enum qb_ipc_type type, long K, int pa
 		VLOG(r, "client: %s id %d timeout %d -> %zd after %.0f ms (server %s)\n", what, h.id, timeout, rc, el, server_dead ? "dead" : "alive");
 		if (is_disconnect_error(rc)) saw_disconnect = true;
 		if (!forever) {
-			if (el > timeout + 1500) VFAIL(r, "finite-timeout-overrun", "%s with a timeout of %d ms returned %zd after %.0f ms (server %s)", what, timeout, rc, el, server_dead ? "dead" : "alive");
+			if (el > timeout + SLACK_MS) VFAIL(r, "finite-timeout-overrun", "%s with a timeout of %d ms returned %zd after %.0f ms (server %s)", what, timeout, rc, el, server_dead ? "dead" : "alive");
 			if (server_dead && !was_dead) VCLASS(r, KB_FINITE);
 		} else {
 			if (server_dead) {
 				checked_forever = true;
 				if (!was_dead) VCLASS(r, KB_FOREVER);
 				double waited = was_dead ? el : since_death;
-				if (waited > 2 * QB_IPC_MAX_WAIT_MS + 1500) VFAIL(r, "infinite-wait-not-ended", "%s returned %zd only %.0f ms after the server had died", what, rc, waited);
+				if (waited > 2 * QB_IPC_MAX_WAIT_MS + SLACK_MS) VFAIL(r, "infinite-wait-not-ended", "%s returned %zd only %.0f ms after the server had died", what, rc, waited);
 				else if (rc >= 0 && was_dead) { /* a message that was already queued may still be handed out */ }
 				else if (rc < 0 && !is_disconnect_error(rc)) VFAIL(r, "infinite-wait-wrong-error", "%s returned %zd (not a disconnect error) although the server is dead", what, rc);
 			}
@@ -367,8 +368,8 @@ static void part_b(struct verif_report *r, enum qb_ipc_type type, long K, int pa
 		if (was_disc && was_dead && !r->fail) {	/* the statement is about a dead server; a live server that threw the client out is not covered */
 			VCLASS(r, KB_LATER);
 			if (rc >= 0) VFAIL(r, "call-succeeds-after-disconnect", "%s returned %zd although an earlier call had already reported the disconnect", what, rc);
-			else if (el > timeout + 1500 && !forever) VFAIL(r, "late-failure-after-disconnect", "%s took %.0f ms to fail after the disconnect had been reported", what, el);
-			else if (forever && el > 1500) VFAIL(r, "late-failure-after-disconnect", "%s took %.0f ms to fail after the disconnect had been reported", what, el);
+			else if (el > timeout + SLACK_MS && !forever) VFAIL(r, "late-failure-after-disconnect", "%s took %.0f ms to fail after the disconnect had been reported", what, el);
+			else if (forever && el > SLACK_MS) VFAIL(r, "late-failure-after-disconnect", "%s took %.0f ms to fail after the disconnect had been reported", what, el);
 		}
 	}
 	if (r->fail) { kill(pid, SIGKILL); close(pfd[0]); qb_ipcc_disconnect(c); return; }
@@ -395,6 +396,9 @@ static void part_b(struct verif_report *r, enum qb_ipc_type type, long K, int pa
 
 /* =====================================================  cases  ===== */
 static const ascript FIXED[] = { { 0, 0, 0, 1, 0 }, { 1, 0, 0, 1, 0 }, { 1, 2, 1, 1, 0 }, { 0, 3, 0, 0, 0 } };
+#define HS_REQ_PREFIXES 23	/* the handshake request has 24 bytes: every proper, non-empty prefix */
+#define HS_RSP_PREFIXES 12	/* the (large) handshake response: a sample of prefix lengths */
+static const uint16_t RSP_PREFIX[HS_RSP_PREFIXES] = { 1, 4, 8, 15, 16, 23, 24, 25, 64, 300, 1000, 4000 };
 #define ENUM_KA 64	/* the longest fixed client script makes 51 calls */
 #define ENUM_KB 84	/* the server makes about 70 calls from start to the end of a fixed client script */
 /* fixed client scripts for part B: number of ops - 3, "no kill", then (kind, id, timeout) triples */
@@ -406,7 +410,7 @@ static const uint8_t BSCRIPT[3][32] = {
 extern "C" size_t verif_enum_count(const char *tier)
 {
 	(void)tier;	/* both tiers enumerate every crash point: part A 2 transports x 4 scripts x K; part B 2 transports x 3 scripts x K */
-	return 2 * 4 * ENUM_KA + 2 * 3 * ENUM_KB + 2 * 3 * 2;
+	return 2 * 4 * ENUM_KA + 2 * 3 * ENUM_KB + 2 * 3 * 2 + 2 * HS_REQ_PREFIXES + 2 * HS_RSP_PREFIXES;
 }
 extern "C" size_t verif_enum_case(size_t idx, uint8_t *buf, size_t cap)
 {
@@ -414,6 +418,16 @@ extern "C" size_t verif_enum_case(size_t idx, uint8_t *buf, size_t cap)
 	memset(buf, 0, 40);
 	if (idx < 2 * 4 * ENUM_KA) { buf[0] = 0xA0; buf[1] = (idx / ENUM_KA) / 4; buf[2] = (idx / ENUM_KA) % 4; uint16_t k = idx % ENUM_KA; memcpy(buf + 3, &k, 2); return 8; }
 	idx -= 2 * 4 * ENUM_KA;
+	if (idx >= 2 * 3 * ENUM_KB + 12) {	/* death after a prefix of the handshake message: the client's request (every prefix), the server's response (sampled) */
+		idx -= 2 * 3 * ENUM_KB + 12;
+		uint16_t k = 0xfffe;	/* "at the first send" */
+		if (idx < 2 * HS_REQ_PREFIXES) { buf[0] = 0xA0; buf[1] = idx / HS_REQ_PREFIXES; buf[2] = 1; memcpy(buf + 3, &k, 2); buf[5] = 0; buf[6] = 1 + idx % HS_REQ_PREFIXES; return 8; }
+		idx -= 2 * HS_REQ_PREFIXES;
+		buf[0] = 0xB0; buf[1] = idx / HS_RSP_PREFIXES; buf[2] = 0; memcpy(buf + 3, &k, 2);
+		memcpy(buf + 5, BSCRIPT[0], sizeof BSCRIPT[0]);
+		uint16_t n = RSP_PREFIX[idx % HS_RSP_PREFIXES]; memcpy(buf + 5 + sizeof BSCRIPT[0], &n, 2);
+		return 5 + sizeof BSCRIPT[0] + 2;
+	}
 	if (idx >= 2 * 3 * ENUM_KB) {		/* the client is killed while the server is inside a callback for it: transport x callback x script */
 		idx -= 2 * 3 * ENUM_KB;
 		buf[0] = 0xA0; buf[1] = idx / 6; buf[2] = 1 + (idx % 2); uint16_t k = 0xffff; memcpy(buf + 3, &k, 2); buf[5] = 1 + (idx % 6) / 2;
@@ -435,10 +449,16 @@ extern "C" int verif_case(const uint8_t *data, size_t size, struct verif_report 
 	if (first == 0xA0 || first == 0xB0) {		/* enumerated */
 		enum qb_ipc_type type = vr_u8(&V) ? QB_IPC_SHM : QB_IPC_SOCKET;
 		unsigned si = vr_u8(&V) % 4; long K = vr_u16(&V); int kin = first == 0xA0 ? (int)(vr_u8(&V) % 4) : 0;
+		int partial = -1;
+		if (K == 0xfffe) {	/* stop after a prefix of the first message sent */
+			K = -2;
+			if (first == 0xA0) partial = (int)vr_u8(&V);
+			else { partial = (int)(data[size - 2] | (data[size - 1] << 8)); }
+		}
 		VCLASS(r, type == QB_IPC_SHM ? K_SHM : K_SOCK);
 		vop(r, first, type, si); vop(r, K, 0, 0);
-		if (first == 0xA0) { VLOG(r, "part A (client dies), %s, fixed script %u, crash point %ld\n", type == QB_IPC_SHM ? "shm" : "socket", si, K); part_a(r, type, FIXED[si], K, -1, si == 3, kin); }
-		else { VLOG(r, "part B (server dies), %s, crash point %ld\n", type == QB_IPC_SHM ? "shm" : "socket", K); part_b(r, type, K, -1); }
+		if (first == 0xA0) { VLOG(r, "part A (client dies), %s, fixed script %u, crash point %ld\n", type == QB_IPC_SHM ? "shm" : "socket", si, K); part_a(r, type, FIXED[si], K, partial, si == 3, kin); }
+		else { VLOG(r, "part B (server dies), %s, crash point %ld\n", type == QB_IPC_SHM ? "shm" : "socket", K); part_b(r, type, K, partial); }
 		return 0;
 	}
 	bool partA = first % 2 == 0;
@@ -446,6 +466,7 @@ extern "C" int verif_case(const uint8_t *data, size_t size, struct verif_report 
 	VCLASS(r, type == QB_IPC_SHM ? K_SHM : K_SOCK);
 	long K = vr_u8(&V) % 8 == 0 ? 1000000 : (long)(vr_u16(&V) % (partA ? 70 : 95));
 	int partial = vr_u8(&V) % 4 == 0 ? (int)vr_u8(&V) : -1;
+	if (vr_u8(&V) % 6 == 0) { K = -2; if (partial <= 0) partial = 1 + (int)(vr_u8(&V) % 23); }	/* stop after a prefix of the handshake message */
 	if (partA) {
 		ascript sc; sc.n_sync = vr_u8(&V) % 3; sc.n_queued = vr_u8(&V) % 4; sc.events = vr_u8(&V) % 2; sc.proper_disconnect = vr_u8(&V) % 2; sc.linger_ms = vr_u8(&V) % 4 == 0 ? 1 + vr_u8(&V) % 5 : 0;
 		bool lazy = sc.n_sync == 0 ? vr_bool(&V) : (vr_u8(&V) % 4 == 0);
